@@ -389,6 +389,8 @@ def r20_9(ctx):
 
 
 def run(ctx):
+    ctx.rule("R20.12", "append merges text into the last child only; append_before_sibling detaches, links to the sibling's parent and inserts at the sibling's index; reparent_children takes the old list")
+    ctx.guard("R20.12", "mutators", lambda: r20_12(ctx))
     ctx.rule("R20.11", "the option -> nearest ancestor select walk examines every ancestor, the root-most included")
     ctx.guard("R20.11", "ancestor-walk", lambda: r20_11(ctx))
     ctx.rule("R20.10", "the select's selectedcontent is the first such descendant in tree order (depth-first search)")
@@ -433,3 +435,58 @@ def r20_11(ctx):
         if not examined:
             bad = "the walk ends at an ancestor without a parent that was never examined (guards %s): a select at the root of a detached subtree is not found" % [k[-60:] for k in g][:2]
     ctx.ob("R20.11", "ancestor-walk-examines-the-root-most-ancestor", bad is None and n >= 1, bad or "%d paths examine an ancestor; none leaves at a parentless ancestor it has not examined" % n, "rcdom Node::get_option_element_nearest_ancestor_select")
+
+
+def r20_12(ctx):
+    """the TreeSink mutators, as the standard's DOM operations:
+    append: text is merged only into the parent's LAST child; otherwise the node goes through the one appending primitive.
+    append_before_sibling: (parent, i) = the sibling's parent and index; the node is detached from wherever it is, its parent
+      link is set to THAT parent and it is inserted at index i exactly (text merges into children[i - 1], R20.8).
+    reparent_children: every child's parent link is replaced and the old list is TAKEN (emptied) into the new parent's list."""
+    PI = r'get_parent_and_index\(p1\)(\.expect\("[^"]*"\)|\.unwrap\(\))?'
+    key, pcs = nfq.cells(ctx, AREA, "[TreeSink]::append_before_sibling")
+    bad = None
+    n = 0
+    for pc in nfq.feasible(pcs):
+        t = nfq.texts(pc)
+        ins = [x for x in t if re.search(r"children\.insert\(", x)]
+        if not ins:
+            continue
+        n += 1
+        m = re.search(r"children\.insert\((.*)\)$", ins[0])
+        args = m.group(1) if m else ""
+        if not re.match(PI + r"\.1,", args):
+            bad = bad or "the node is inserted at %s, not at the sibling's own index" % args[:70]
+        node = args.split(",")[-1]
+        det = [x for x in t if x.startswith("call remove_from_parent(")]
+        if not det or t.index(det[0]) > t.index(ins[0]):
+            bad = bad or "the node is inserted without having been detached from its old parent first: it would be in two child lists"
+        sets = [x for x in t if re.search(r"(^|\.)set\(Some\(downgrade\(", x) or re.search(r"parent\.(set|replace)\(Some\(downgrade\(", x)]
+        if not sets or not re.search(r"downgrade\(" + PI + r"\.0\)", sets[0]):
+            bad = bad or "the node's parent link is set to %s, not to the sibling's parent" % (sets[0][-80:] if sets else "nothing")
+    ctx.ob("R20.12", "append_before_sibling-inserts-at-the-siblings-index", bad is None and n >= 2, bad or "%d inserting paths: detached, parent := sibling's parent, inserted at the sibling's index" % n, "rcdom append_before_sibling")
+    key, pcs = nfq.cells(ctx, AREA, "[TreeSink]::append")
+    bad = None
+    n = 0
+    for pc in nfq.feasible(pcs):
+        for x in nfq.texts(pc):
+            m = re.match(r"call append_to_existing_text\((.*),p2\.0\)$", x)
+            if m:
+                n += 1
+                if m.group(1) != "p1.children.last().0":
+                    bad = "appended text is merged into %s, not into the parent's last child" % m.group(1)
+    ctx.ob("R20.12", "append-merges-into-the-last-child", bad is None and n >= 1, bad or "text merges into parent.children.last() only", "rcdom append")
+    key, pcs = nfq.cells(ctx, AREA, "[TreeSink]::reparent_children")
+    bad = None
+    n = 0
+    for pc in nfq.feasible(pcs):
+        if str(pc["ret"]) == "!":
+            continue
+        n += 1
+        t = " ; ".join(nfq.texts(pc))
+        moved = re.search(r"p2\.children\.(extend|append)\((take\(p1\.children\)|p1\.children\.drain\(\.\.\)|p1\.children)\)", t)
+        if not moved or (moved.group(1) == "extend" and moved.group(2) == "p1.children"):
+            bad = bad or "the children are added to the new parent without being taken out of the old list (%s): they are children of both" % t[-90:]
+        if not re.search(r"item\.parent\.(replace|set)\(Some\(downgrade\(p2\)\)\)", t):
+            bad = bad or "the children's parent links are not set to the new parent"
+    ctx.ob("R20.12", "reparent-children-moves", bad is None and n >= 1, bad or "parent links replaced, old list taken into the new parent's", "rcdom reparent_children")
